@@ -12,6 +12,7 @@ package main
 
 import (
 	"fmt"
+	"strings"
 	"sync"
 	"time"
 
@@ -28,8 +29,8 @@ type sweepCtl struct {
 	l        *lab.Lab
 	armed    bool
 	point    int
-	nth      int    // hold at the nth occurrence of the point (1-based)
-	minArg   uint64 // for SweepGrabbed: frontier must be >= minArg
+	nth      int             // hold at the nth occurrence of the point (1-based)
+	minArg   uint64          // for SweepGrabbed: frontier must be >= minArg
 	keys     map[uint64]bool // for key points: only count these key hashes
 	seen     int
 	reached  bool
@@ -142,15 +143,25 @@ type c14Case struct {
 	Trace    []string `json:"trace,omitempty"`
 }
 
+// c14Prop is the property the findings are reported under: "C14", or "C06" when the directed schedules are run
+// for C06's clause "the entry stays retrievable until it is overwritten, deleted, cleared or its TTL elapses".
+var c14Prop = "C14"
+
 func runC14(c *Ctx) {
 	r := c.R
+	if c.Arg == "C06" {
+		c14Prop = "C06"
+	}
 	r.Rule = "(A) directed: position of the racing call in {before the grab, after the grab, before the key's check, between check and removal} x racing call in {rewrite later ttl, no ttl, shorter ttl, Del, Del+re-insert} x the key is the 1st/2nd/last visited of its bucket; (B) late application: a short-ttl insert waits in the write buffer until its bucket lies behind the sweep frontier; (C) stress with delays at the sweep points. distinct by (kind, position, call, nth, outcome class); non-trivial when at least one entry expired"
 	ristretto.VerifSetBucketSeconds(1)
 	rounds := c.N(2, 16)
 	for round := 0; round < rounds; round++ {
 		var cases []c14Case
 		positions := []string{"before-grab", "after-grab", "before-check", "between-check-and-removal"}
-		calls := []string{"later", "none", "shorter", "del", "del-reinsert"}
+		calls := []string{"later", "none", "shorter", "del", "del-reinsert", "fresh-short"}
+		if c14Prop == "C06" {
+			calls = []string{"later", "none", "del-reinsert"}
+		}
 		for _, p := range positions {
 			for _, cl := range calls {
 				for _, nth := range []int{1, 2, 4} {
@@ -161,10 +172,10 @@ func runC14(c *Ctx) {
 				}
 			}
 		}
-		for i := 0; i < c.N(24, 40); i++ {
+		for i := 0; i < c.N(24, 40) && c14Prop == "C14"; i++ {
 			cases = append(cases, c14Case{Kind: "late"})
 		}
-		for i := 0; i < 4; i++ {
+		for i := 0; i < 4 && c14Prop == "C14"; i++ {
 			cases = append(cases, c14Case{Kind: "stress"})
 		}
 		var wg sync.WaitGroup
@@ -208,12 +219,16 @@ func (e *c14Env) tr(f string, a ...any) {
 }
 
 func (e *c14Env) fail(sig, d string) {
+	if c14Prop == "C06" && !strings.HasPrefix(sig, "rewritten-entry-removed") && sig != "entry-without-ttl-removed" {
+		e.c.R.Obs("findings_owned_by_other_property["+sig+"]", 1)
+		return
+	}
 	e.bad = true
 	cs := e.cs
 	e.tmu.Lock()
 	cs.Trace = append([]string(nil), e.trace...)
 	e.tmu.Unlock()
-	e.c.R.Violate("C14/"+sig, fmt.Sprintf("[%s %s %s nth=%d] %s", e.cs.Kind, e.cs.Position, e.cs.Call, e.cs.Nth, d), cs)
+	e.c.R.Violate(c14Prop+"/"+sig, fmt.Sprintf("[%s %s %s nth=%d] %s", e.cs.Kind, e.cs.Position, e.cs.Call, e.cs.Nth, d), cs)
 }
 
 func newC14Env(c *Ctx, cs c14Case, nkeys int, setbuf int) *c14Env {
@@ -303,6 +318,8 @@ func c14Directed(c *Ctx, cs c14Case) {
 	}
 	race := -1 // key index the racing call is applied to
 	var newVal uint64
+	const freshTTL = 700 * time.Millisecond
+	var freshT0, freshT1 time.Time
 	doCall := func(k int) {
 		race = k
 		switch cs.Call {
@@ -315,6 +332,11 @@ func c14Directed(c *Ctx, cs c14Case) {
 		case "shorter":
 			newVal = cl.NextVal(k)
 			cl.Set(k, newVal, 1, time.Millisecond)
+		case "fresh-short":
+			newVal = cl.NextVal(k)
+			freshT0 = time.Now()
+			cl.Set(k, newVal, 1, freshTTL)
+			freshT1 = time.Now()
 		case "del":
 			cl.Del(k)
 		case "del-reinsert":
@@ -368,6 +390,41 @@ func c14Directed(c *Ctx, cs c14Case) {
 	s1 := e.sw.sweepCount()
 	e.sw.waitFor(func() bool { return e.sw.sweeps > s1 }, 3*time.Second)
 	cl.Wait()
+	if cs.Call == "fresh-short" {
+		// the re-written entry carries a fresh ttl: it must survive the sweep that was in progress ...
+		if g1 := time.Now(); g1.Before(freshT0.Add(freshTTL)) {
+			l.C.Pause()
+			sn := l.C.Snapshot()
+			l.C.Resume()
+			found := false
+			for _, en := range sn.Entries {
+				if en.Value == newVal {
+					found = true
+					idx := int64(-1)
+					for b, keys := range sn.Buckets {
+						if _, ok := keys[en.Key]; ok {
+							idx = b
+						}
+					}
+					if idx < 0 || idx <= sn.LastCleaned {
+						e.fail("rewritten-entry-unreachable/"+cs.Position+"/fresh-short", fmt.Sprintf("key re-written with a fresh ttl while the sweep was %s is indexed at bucket %d (frontier %d): no sweep will ever reclaim it", cs.Position, idx, sn.LastCleaned))
+					}
+				}
+			}
+			if !found && time.Now().Before(freshT0.Add(freshTTL)) {
+				e.fail("rewritten-entry-removed/"+cs.Position+"/fresh-short", "key re-written with a fresh (unexpired) ttl during the sweep is gone")
+			}
+		}
+		// ... and be reclaimed once its own ttl has elapsed and a covering sweep has completed
+		fb := ristretto.VerifStorageBucket(freshT1.Add(freshTTL))
+		if !e.sw.waitFor(func() bool { return e.sw.frontier >= fb }, 6*time.Second) {
+			r.Inconc(1)
+			return
+		}
+		s2 := e.sw.sweepCount()
+		e.sw.waitFor(func() bool { return e.sw.sweeps > s2 }, 3*time.Second)
+		cl.Wait()
+	}
 	l.C.Pause()
 	snap := l.C.Snapshot()
 	l.C.Resume()
@@ -386,6 +443,22 @@ func c14Directed(c *Ctx, cs c14Case) {
 				fmt.Sprintf("key %d was re-written (%s) while the sweep was %s; the new value %#x must survive expiry processing but: retrievable=%v OnEvict=%d OnExit=%d", race, cs.Call, cs.Position, newVal, hit && got == newVal, ne, nx))
 		} else {
 			outcome = "survived"
+			if cs.Call == "later" {
+				for _, en := range snap.Entries {
+					if en.Value != newVal {
+						continue
+					}
+					idx := int64(-1)
+					for b, keys := range snap.Buckets {
+						if _, ok := keys[en.Key]; ok {
+							idx = b
+						}
+					}
+					if idx < 0 || idx <= snap.LastCleaned {
+						e.fail("rewritten-entry-unreachable/"+cs.Position+"/later", fmt.Sprintf("key %d re-written with a later ttl while the sweep was %s is indexed at bucket %d (frontier %d): it will never be reclaimed when that ttl elapses", race, cs.Position, idx, snap.LastCleaned))
+					}
+				}
+			}
 			if _, ok := snap.KeyCosts[l.Hashes[race][0]]; !ok {
 				e.fail("rewritten-entry-unaccounted/"+cs.Position+"/"+cs.Call, fmt.Sprintf("key %d survived in the map but is no longer accounted by the capacity policy", race))
 			}
@@ -401,6 +474,17 @@ func c14Directed(c *Ctx, cs c14Case) {
 			e.fail("old-value-exit-count", fmt.Sprintf("the deleted value of key %d: OnEvict %d times, OnExit %d times", race, oe, ox))
 		}
 		outcome = "deleted"
+	case "fresh-short":
+		ne, nx := valueEvents(evs, newVal)
+		_, acc := snap.KeyCosts[l.Hashes[race][0]]
+		outcome = "fresh-reclaimed"
+		if ne != 1 || nx != 1 || acc || hit {
+			outcome = "fresh-leaked"
+			e.fail("rewritten-entry-not-reclaimed/"+cs.Position+"/fresh-short", fmt.Sprintf("key %d was re-written with ttl %v while the sweep was %s; that ttl has elapsed and a covering sweep completed, but OnEvict=%d OnExit=%d still-accounted=%v retrievable=%v", race, freshTTL, cs.Position, ne, nx, acc, hit))
+		}
+		if ox != 1 {
+			e.fail("old-value-exit-count", fmt.Sprintf("the overwritten value of key %d was passed to OnExit %d times", race, ox))
+		}
 	case "shorter":
 		outcome = fmt.Sprintf("shorter-hit=%v", hit)
 		if ox != 1 {
